@@ -16,7 +16,7 @@
 (*   reser  serialising the message read does not reproduce the bytes(C01) *)
 (***************************************************************************)
 EXTENDS Wire, VDict, Json, TLC
-LB == INSTANCE LenBook WITH MaxOps <- 0, Lens <- {}, order <- <<>>, hlen <- 0, hist <- <<>>
+LB == INSTANCE LenBook WITH MaxOps <- 0, Lens <- {}, FullDepth <- 0, LateOps <- {}, order <- <<>>, hlen <- 0, hist <- <<>>
 
 Trace == ndJsonDeserialize("trace.ndjson")
 
@@ -33,7 +33,7 @@ Reasons(e) ==
          want == LB!Replay(st, 20 + LB!SumSizes(st), e.ops, 1)
      IN IF /\ Len(e.after) = Len(want)
            /\ \A k \in 1..Len(want) :
-                 /\ e.after[k].hlen = want[k].hlen /\ e.after[k].slen = want[k].hlen
+                 /\ e.after[k].hlen = want[k].hlen /\ e.after[k].slen = want[k].hlen /\ e.after[k].wsame
                  /\ e.after[k].order = [j \in 1..Len(want[k].order) |-> want[k].order[j].id]
         THEN <<>> ELSE <<"lenbook">>
   ELSE IF ~WFMsg(e.m) THEN <<"generator-not-wf">>
